@@ -55,6 +55,12 @@ def normMd (md : Option (List Md)) (nIds : Nat) : Option (List Md) :=
   | none => none
   | some m => if m.length == nIds && m.all (·.isEmpty) then none else some m
 
+/-- `_cast_metadata`: entries that are all None or empty are no metadata (whatever their number) -/
+def castMd (md : Option (List Md)) : Option (List Md) :=
+  match md with
+  | none => none
+  | some m => if m.all (·.isEmpty) then none else some m
+
 /-- `set(ids)` as a list (one representative per distinct id) -/
 def dedup : List Id → List Id
   | [] => []
@@ -92,8 +98,8 @@ def construct (a : CtorArgs) : Except Err TState :=
   let smd := normMd a.smd a.sampIds.length
   if a.validate && !(errcheckDefault a.nrows a.ncols a.obsIds a.sampIds omd smd) then .error .tableException
   else .ok {
-    obs := { ids := a.obsIds, index := a.obsIndex.getD (indexList a.obsIds), md := omd },
-    samp := { ids := a.sampIds, index := a.sampIndex.getD (indexList a.sampIds), md := smd },
+    obs := { ids := a.obsIds, index := a.obsIndex.getD (indexList a.obsIds), md := castMd omd },
+    samp := { ids := a.sampIds, index := a.sampIndex.getD (indexList a.sampIds), md := castMd smd },
     nrows := a.nrows, ncols := a.ncols, rows := a.rows }
 
 /-! ### in-place operations -/
@@ -106,13 +112,13 @@ def filterInplace (s : TState) (ax : Axis) (mask : List Bool) : Except Err TStat
   | .obs =>
     if mask.length != s.obs.ids.length then .error .index else
     let ids := filterMask s.obs.ids mask
-    .ok { s with obs := { ids, index := indexList ids, md := s.obs.md.map (filterMask · mask) },
+    .ok { s with obs := { ids, index := indexList ids, md := castMd (s.obs.md.map (filterMask · mask)) },
                  samp := { s.samp with index := s.samp.index },
                  rows := filterMask s.rows mask, nrows := (filterMask s.rows mask).length }
   | .samp =>
     if mask.length != s.samp.ids.length then .error .index else
     let ids := filterMask s.samp.ids mask
-    .ok { s with samp := { ids, index := indexList ids, md := s.samp.md.map (filterMask · mask) },
+    .ok { s with samp := { ids, index := indexList ids, md := castMd (s.samp.md.map (filterMask · mask)) },
                  obs := { s.obs with index := s.obs.index },
                  rows := filterCols s.rows mask, ncols := (filterMask (List.replicate s.ncols ()) mask).length }
 
@@ -147,9 +153,10 @@ def addMetadata (s : TState) (ax : Axis) (mapping : List (Id × Md)) : TState :=
       let t := a.ids.map (fun i => (mapping.lookup i).getD [])
       -- `_cast_metadata`: a tuple of only None collapses to None
       if a.ids.all (fun i => (mapping.lookup i).isNone) then none else some t
+  -- `_cast_metadata` at the end of add_metadata
   match ax with
-  | .obs => { s with obs := { a with md := md' } }
-  | .samp => { s with samp := { a with md := md' } }
+  | .obs => { s with obs := { a with md := castMd md' } }
+  | .samp => { s with samp := { a with md := castMd md' } }
 
 def delKeys (keys : Option (List String)) (a : AxisSt) : AxisSt :=
   match keys with
